@@ -5,8 +5,10 @@
    arithmetic are then restated on the generated definitions.
 
    The proof scripts do not mention the names of the Python locals: renaming a local in the source regenerates a
-   different text with the same meaning and these proofs still go through; changing the arithmetic (floor for
-   ceil, < for <=, a dropped clamp, dsp computed from dmax ...) makes an equality below false and the script fails.
+   different text with the same meaning and these proofs still go through (so do two semantically neutral rewrites
+   that were tried: `if disp <= 0` in point_interval, `window_size - 1` for `int(window_size / 2) * 2` in zncc);
+   changing the arithmetic (floor for ceil, <= for < in the interval test, a dropped clamp, dsp computed from
+   dmax, the wrong fraction, the wrong written range ...) makes an equality below false and the script fails.
 
    First part: the scaled-integer operations of Model/PyArith.v are the operations of Q / Qround on x = X / s. *)
 From Coq Require Import ZArith List Bool Lia QArith Qround.
@@ -74,12 +76,32 @@ Qed.
 
 (* ------------------------------------------------------------------ generated = model *)
 
-Lemma gen_point_interval_eq : forall s nxl nxr D,
+(* The first script is the structural one (same test, same rounding in each branch).  The second one covers a
+   test that differs from the model's at disp = 0 only (`disp <= 0`): there the four bounds are whole numbers and
+   ceil = floor. *)
+Lemma ceil_floor_whole : forall n s, 0 < s -> - (- (n * s) / s) = n * s / s.
+Proof. intros n s Hs. rewrite <- Z.mul_opp_l, !Z.div_mul by lia. lia. Qed.
+
+Lemma gen_point_interval_eq : forall s nxl nxr D, 0 < s ->
   G.point_interval s nxl nxr D = MatchingCost.point_interval s nxl nxr D.
 Proof.
-  intros s nxl nxr D. unfold G.point_interval, MatchingCost.point_interval.
+  intros s nxl nxr D Hs. unfold G.point_interval, MatchingCost.point_interval.
   unfold py_real, py_ceil, py_floor, ceil_div, floor_div. cbv zeta. rewrite !Z.mul_0_l.
-  destruct (D <? 0); reflexivity.
+  first
+    [ destruct (D <? 0); reflexivity
+    | destruct (Z.eq_dec D 0) as [E|NE];
+      [ subst D;
+        repeat match goal with
+               | |- context [if ?b then _ else _] => let v := eval vm_compute in b in change b with v; cbv iota
+               end;
+        cbn [fst snd]; cbv beta; rewrite ?Z.sub_0_r, ?Z.add_0_r, ?Z.max_id, ?Z.min_id; change (- 0) with 0;
+        rewrite ?(ceil_floor_whole _ s Hs); rewrite ?Z.div_0_l by lia; reflexivity
+      | repeat match goal with
+               | |- context [?a <? ?b] => destruct (Z.ltb_spec a b); try lia
+               | |- context [?a <=? ?b] => destruct (Z.leb_spec a b); try lia
+               | |- context [?a >? ?b] => rewrite (Z.gtb_ltb a b)
+               | |- context [?a >=? ?b] => rewrite (Z.geb_leb a b)
+               end; reflexivity ] ].
 Qed.
 
 (* int((disp % 1) * subpix) *)
@@ -107,7 +129,7 @@ Lemma gen_cv_masked_loop_eq : forall s ny nx g h nxl nxr D, 0 < s ->
    dsp_index s (grid_min ny nx g) D).
 Proof.
   intros s ny nx g h nxl nxr D Hs. unfold G.cv_masked_loop. rewrite gen_get_min_max_from_grid_eq.
-  cbv zeta. rewrite (gen_i_right_expr s D Hs), gen_point_interval_eq, (gen_dsp_expr _ _ _ Hs).
+  cbv zeta. rewrite (gen_i_right_expr s D Hs), (gen_point_interval_eq _ _ _ _ Hs), (gen_dsp_expr _ _ _ Hs).
   destruct (MatchingCost.point_interval s nxl (nxr (i_right s D)) D) as [pp qq]. reflexivity.
 Qed.
 
@@ -128,7 +150,7 @@ Lemma gen_sad_ssd_loop_eq : forall s nxl nxr D, 0 < s ->
   let pq := MatchingCost.point_interval s nxl (nxr (i_right s D)) D in (i_right s D, pq, fst pq).
 Proof.
   intros s nxl nxr D Hs. unfold G.sad_ssd_loop. cbv zeta.
-  rewrite (gen_i_right_expr s D Hs), gen_point_interval_eq.
+  rewrite (gen_i_right_expr s D Hs), (gen_point_interval_eq _ _ _ _ Hs).
   destruct (MatchingCost.point_interval s nxl (nxr (i_right s D)) D) as [[p0 p1] qq]. reflexivity.
 Qed.
 
@@ -137,7 +159,7 @@ Lemma gen_census_loop_eq : forall s nxl nxr D, 0 < s ->
   let pq := MatchingCost.point_interval s nxl (nxr (i_right s D)) D in (i_right s D, pq, fst pq).
 Proof.
   intros s nxl nxr D Hs. unfold G.census_loop. cbv zeta.
-  rewrite (gen_i_right_expr s D Hs), gen_point_interval_eq.
+  rewrite (gen_i_right_expr s D Hs), (gen_point_interval_eq _ _ _ _ Hs).
   destruct (MatchingCost.point_interval s nxl (nxr (i_right s D)) D) as [[p0 p1] qq]. reflexivity.
 Qed.
 
@@ -160,8 +182,15 @@ Lemma gen_zncc_loop_eq : forall s w nxl nxr D, 0 < s -> 0 < w -> Z.odd w = true 
    ((p0, Z.max p0 (p1 - 2 * off)), (q0, Z.max q0 (q1 - 2 * off)))).
 Proof.
   intros s w nxl nxr D Hs Hw Ho. unfold G.zncc_loop. cbv zeta.
-  rewrite (gen_i_right_expr s D Hs), gen_point_interval_eq, (odd_half w Hw Ho).
-  destruct (MatchingCost.point_interval s nxl (nxr (i_right s D)) D) as [[p0 p1] [q0 q1]]. reflexivity.
+  rewrite (gen_i_right_expr s D Hs), (gen_point_interval_eq _ _ _ _ Hs).
+  (* twice the half window, however the source writes it: int(w / 2) * 2 = 2 * offset = w - 1 for an odd w *)
+  pose proof (odd_half w Hw Ho) as E1.
+  assert (E2 : 2 * offset w = w - 1).
+  { unfold offset. rewrite Zodd_mod in Ho. apply Zeq_bool_eq in Ho.
+    pose proof (Z.div_mod w 2 ltac:(lia)). pose proof (Z.div_mod (w - 1) 2 ltac:(lia)).
+    pose proof (Z.mod_pos_bound (w - 1) 2 ltac:(lia)). lia. }
+  destruct (MatchingCost.point_interval s nxl (nxr (i_right s D)) D) as [[p0 p1] [q0 q1]]. cbn [fst snd].
+  repeat (f_equal; try lia).
 Qed.
 
 (* on which images point_interval is called: the images themselves for sad / ssd / zncc, the census transforms
